@@ -588,6 +588,15 @@ def gen_epub_case(rng, wild):
         spine.append(iid)
         kept.append(kind == "ok")
         toks.append(f"TOK{i + 1}" if kind == "ok" else None)
+    # half of the wild books have a chapter that is FOLLOWED by another chapter and ends inside an element the
+    # extractor removes or tracks: parser state left open by one chapter must not leak into the next one
+    ok_files = [nm for (iid, nm, mt) in items if nm in files]
+    by_id = {iid: nm for (iid, nm, mt) in items if nm in files}
+    in_order = [by_id[i] for i in spine if i in by_id]
+    if wild and len(in_order) >= 2 and rng.random() < 0.5:
+        nm = rng.choice(in_order[:-1])
+        if not files[nm].endswith("~"):
+            files[nm] += "~"
     rng.shuffle(items)
     names = list(files)
     rng.shuffle(names)
